@@ -60,6 +60,9 @@ def _reg3(name, tvar, trole, rvar, rrole, cvar, crole, quick, thorough, cfgs=CFG
 
 for _p in ("first", "mid", "last"):
     _reg3("cat_%s_x_cat_x_cat" % _p, S.cat("t", 2, _p), "cat", A2, "cat", B2, "cat", 2, 3)
+_reg3("catdate_first_x_cat_x_cat", S.cat("t", 2, "first", date=True), "cat", A2, "cat", B2, "cat", 2, 3, cfgs=[{}])
+_reg3("datetime_first_x_cat_x_cat", S.enum("t", "datetime", 2, missing_first=True), "enum", A2, "cat", B2, "cat", 2, 3, cfgs=[{}])
+_reg3("text_first_x_cat_x_mr", S.enum("t", "text", 2, missing_first=True), "enum", A2, "cat", M2, "mr", 1, 2, cfgs=[{}])
 _reg3("cat_x_cat_x_mr", S.cat("t", 2, "first"), "cat", A2, "cat", M2, "mr", 1, 2)
 _reg3("cat_x_mr_x_cat", S.cat("t", 2, "mid"), "cat", M2, "mr", A2, "cat", 1, 2, cfgs=[{}])
 _reg3("mr_x_cat_x_cat", N2, "mr", A2, "cat", B2, "cat", 1, 2)
@@ -184,6 +187,8 @@ def check(space, state):
         tvar = sch3.vars[0]
         if tvar.kind == "CAT":
             elems = [(c["name"], (lambda r, i=c["id"]: r[0][0] == i)) for c in tvar.cats if not c.get("missing")]
+        elif tvar.kind == "ENUM":
+            elems = [(None, (lambda r, i=e[0]: r[0][0] == i)) for e in tvar.elements]
         else:
             elems = [(it["name"], (lambda r, k=k: tvar.states(r[0][0])[k] == SEL)) for k, it in enumerate(tvar.items)]
         asserted += 1
@@ -196,7 +201,11 @@ def check(space, state):
             asserted += compare_parts(V, "3d", parts[k], ref, label="partition %d" % k)
             asserted += 1
             tn = parts[k].table_name
-            if tn != "%s: %s" % (tvar.name, label):
+            if label is None:
+                ok = isinstance(tn, str) and tn.startswith("%s: " % tvar.name)
+                if not ok:
+                    V.append(viol("3d:table_name", "partition %d table_name %r" % (k, tn)))
+            elif tn != "%s: %s" % (tvar.name, label):
                 V.append(viol("3d:table_name", "partition %d table_name %r, expected '%s: %s'" % (k, tn, tvar.name, label)))
             outs.append(np.asarray(parts[k].counts, dtype=float).tobytes())
     elif kind == "ca3d":
